@@ -253,15 +253,19 @@ func (s *EncryptionSession) In(seqNum uint32, prio bool) (
 		sh = s.prioSeqHandler
 	}
 
-	// Check if we need to rollover key.
-	if sh.RolloverRequired(seqNum) {
+	// Check if the sequence number indicates a key rollover.
+	// The frame is not authenticated yet, so nothing is changed here: the frame
+	// is decrypted with the next key and the rollover is only executed by
+	// Check(), which is called after the frame was authenticated.
+	if sh.RolloverIndicated(seqNum) {
 		if prio {
 			return nil, errors.New("prio sequence handler requested key rollover")
 		}
-		s.prioSeqHandler.ResetIn()
-		if err := s.rolloverInKey(); err != nil {
+		_, nextCipher, err := rolloverKey(s.inKey)
+		if err != nil {
 			return nil, fmt.Errorf("rollover in key: %w", err)
 		}
+		return nextCipher, nil
 	}
 
 	return s.inCipher, nil
@@ -334,6 +338,19 @@ func (s *EncryptionSession) Check(seqNum uint32, prio bool) error {
 	if prio {
 		return s.prioSeqHandler.Check(seqNum)
 	}
+
+	// Execute the key rollover that In() found indicated by this - now
+	// authenticated - frame.
+	s.lock.Lock()
+	if s.inCipher != nil && s.reglSeqHandler.RolloverRequired(seqNum) {
+		s.prioSeqHandler.ResetIn()
+		if err := s.rolloverInKey(); err != nil {
+			s.lock.Unlock()
+			return fmt.Errorf("rollover in key: %w", err)
+		}
+	}
+	s.lock.Unlock()
+
 	return s.reglSeqHandler.Check(seqNum)
 }
 
@@ -382,6 +399,15 @@ func (sh *SequenceHandler) NextOut() (seqNum uint32, rollover bool) {
 	}
 
 	return
+}
+
+// RolloverIndicated returns whether the given sequence number would trigger a
+// key rollover, without changing any state.
+func (sh *SequenceHandler) RolloverIndicated(seqNum uint32) bool {
+	sh.lock.Lock()
+	defer sh.lock.Unlock()
+
+	return sh.highest >= rolloverUpperBound && seqNum <= rolloverLowerBound
 }
 
 // RolloverRequired returns whether the current sequence number allows
